@@ -93,7 +93,7 @@ theorem allQty_filter {ps : List Regroup.RPost} (h : Regroup.AllQty ps) (f : Reg
 theorem sumValue_jsum (j : Journal) (sel : String → Bool) (c : Comm) :
     (Regroup.sumValue ((Regroup.plainPosts {} j).filter (fun p => sel p.account))).den c = jsum j sel c := by
   rw [Regroup.sumValue_den _ (allQty_filter (allQty_plain j) _)]
-  unfold Regroup.sumDen
+  unfold Regroup.sumDen Regroup.sumDenBy
   rw [wsum_eq_sumBy, OF.sumBy_filter]
   unfold Regroup.plainPosts jsum
   rw [OF.sumBy_flatMap]
